@@ -180,7 +180,23 @@ def handle (case impl : List String) : Verdict :=
         -- correspondence (structure + values), only outside the ambiguity band
         let scale := tris.foldl (fun m t => (triVerts t).foldl (fun m v => ratMax m (posScale v.pos)) m) 0
         let aScale := tris.foldl (fun m t => (triVerts t).foldl (fun m v => v.attr.foldl (fun m x => ratMax m (ratAbs x)) m) m) 1
-        let v := if margin < 1/100000 then { v with amb := true }
+        -- a triangle whose largest coordinate exceeds 1000 × its shortest edge is ill-scaled for f32:
+        -- v0 + (v1 − v0)·t loses an ulp of the LARGE vertex, which is a sizeable fraction of the small
+        -- edge, and later planes amplify it. Such cases are judged by the spec oracle only.
+        let illScaled := tris.any fun t =>
+          let ps := (triVerts t).map fun v => toP4 v.pos
+          match ps with
+          | [a, b, c] =>
+            let e (x y : P4) := Spec.ClipArea.P4.dot (Spec.ClipArea.P4.sub x y) (Spec.ClipArea.P4.sub x y)
+            -- shortest NON-ZERO edge (coincident vertices are exact in f32 and harmless)
+            let es := [e a b, e b c, e a c].filter (· != 0)
+            let sc := (triVerts t).foldl (fun m v => ratMax m (posScale v.pos)) 0
+            match es with
+            | [] => false
+            | x :: xs => sc * sc > 1000000 * xs.foldl ratMin x
+          | _ => false
+        let v := if illScaled then v.addTag "ill-scaled" else v
+        let v := if margin < 1/100000 || illScaled then { v with amb := true }
           else match cmpTris (scale / 10000) (aScale / 1000) model implT with
             | some msg => v.withDiff true s!"{msg} (model {model.length} tris, impl {implT.length})"
             | none => v
